@@ -203,6 +203,17 @@ Definition has_dotdot (p : bytes) : bool := existsb (fun c => bytes_eqb c [46; 4
 
 Definition npath_eqb : npath -> npath -> bool := list_eqb bytes_eqb.
 
+(* The drivers keep files in a HashMap keyed by Path, whose equality and hash go by components: "a//b", "a/./b"
+   and "a/b" are one key.  The model keys its overlay by the canonical spelling of a name (a leading "./" is
+   already gone after strip): the non-empty pieces other than "." joined by single slashes. *)
+Fixpoint join_slash (ps : list bytes) : bytes :=
+  match ps with
+  | [] => []
+  | [p] => p
+  | p :: r => p ++ [47] ++ join_slash r
+  end.
+Definition canon (k : bytes) : bytes := join_slash (normalize k).
+
 Fixpoint lookup_file (p : npath) (l : list (npath * file)) : option file :=
   match l with
   | [] => None
@@ -366,8 +377,11 @@ Definition set_deleted_perm (m : mfile) (d : bool) (p : option mode) : mfile :=
 
 Record astate := { a_applied : list status (* newest first *); a_files : overlay }.
 
+Definition kold (fp : pfilepatch) : option bytes := option_map canon (pf_old fp).
+Definition knew (fp : pfilepatch) : option bytes := option_map canon (pf_new fp).
+
 Definition choose_filename (fs : fsys) (ov : overlay) (fp : pfilepatch) : res bytes :=
-  match pf_old fp, pf_new fp with
+  match kold fp, knew fp with
   | Some o, None => ROk o
   | None, Some n => ROk n
   | Some o, Some n =>
@@ -394,7 +408,7 @@ Definition apply_one_file_patch (fs : fsys) (st : astate) (index : nat) (patch_n
   let '(file, ov1) := l1 in
   let d := if reverse then Rev else Fwd in
   if pf_rename fp then
-    match pf_new fp with
+    match knew fp with
     | None => RPanic
     | Some newname =>
         let old_deleted := deleted file in
@@ -582,6 +596,9 @@ Definition save_backup (dm : N) (patch_name k : bytes) (m : mfile) : M unit :=
   if has_dotdot p then mlift (RErr EOutOfModel) else
   let np := normalize p in
   dom _ <- mop (fun fs => fs_create_dir_all fs (parent np)) (fun _ => RErr ESave);
+  (* an existing backup file is removed first: it must not pass its mode on *)
+  dom _ <- mop (fun fs => fs_remove_file fs np)
+               (fun e => match e with NotFound => ROk tt | FsOther => RErr ESave end);
   mop (fun fs => fs_create dm fs np (perm m) (concat_lines (content m))) (fun _ => RErr ESave).
 
 (* rollback_and_save_backup_files: walks the stack, newest first, without popping *)
@@ -595,7 +612,7 @@ Fixpoint backups (dm : N) (ov : overlay) (stack : list status) (down_to : nat) :
         let '(ov', file) := r in
         dom _ <- save_backup dm (st_patch s) (st_target s) file;
         dom _ <- (if pf_rename (st_fp s) then
-                    match pf_new (st_fp s) with
+                    match knew (st_fp s) with
                     | None => mlift RPanic
                     | Some n => match ov_get n ov' with
                                 | None => mlift RPanic
